@@ -30,6 +30,7 @@ def run(ck, fb):
     r19d(ck, fb)
     r19e(ck, fb)
     r19f(ck, fb)
+    r19j(ck, fb)
     r19g(ck, fb)
     r19h(ck, fb)
     r19i(ck, fb)
@@ -355,6 +356,51 @@ def r19f(ck, fb):
         ck.require(ok, 'R19f', 'async_handle:GetDirectRange:requests-len', s.where(),
                    'the direct-range arm reserves %s instead of the length the caller asked for' % cfg.fmt_desc(d)[:50])
     ck.floor('R19f', 'direct-range reservation sites', nreq, 1)
+
+
+def r19j(ck, fb):
+    R = 'R19j'
+    ck.rule(R, 'every id the sequence manager answers has gone through the key\'s buffer: the operand of each SequenceResult::NextId built in '
+               'SequenceManager derives from a SeqGroup draw (do_next_id, directly or as the payload of SequenceBeforeResult::NextId), and never '
+               'from the start / len of a reserved range. A request that waited for a range and is answered with the range\'s first id jumps the '
+               'queue of ids still buffered: with two requests in flight on an empty cache one node answers 1, 101, 2, 3 ...')
+    from rn.facts import pl_proj
+    SM = 'rnacos::sequence::SequenceManager::'
+    bodies = [b for b in fb.bodies.values() if b.name.startswith(SM) or b.name.startswith('<rnacos::sequence::SequenceManager as ')]
+    n = 0
+
+    def dc(p, names, fields=None):
+        if isinstance(p, int):
+            return False
+        pr = pl_proj(p)
+        for k, e in enumerate(pr):
+            if isinstance(e, dict) and e.get('dc') in names:
+                if fields is None:
+                    return True
+                return any(isinstance(x, dict) and x.get('f') in fields for x in pr[k + 1:])
+        return False
+    isdraw = lambda t: (cfg.callee_name(t) or '').endswith('SequenceManager::do_next_id')
+    for b in bodies:
+        if 'seeded_demo' in b.name or '::tests::' in b.name:
+            continue
+        aggs = [(i, st) for (i, j, st) in b.aggregates(r'sequence::SequenceResult$') if st['rv'].get('variant') == 'NextId'] + \
+               [(i, st) for (i, j, st) in b.aggregates(r'sequence::SequenceBeforeResult$') if st['rv'].get('variant') == 'NextId']
+        if not aggs:
+            continue
+        ck.analysed(b)
+        pos = Taint(b, place_src=lambda p: dc(p, ('NextId',)), call_src=isdraw)
+        neg = Taint(b, place_src=lambda p: dc(p, ('UseFromRange', 'FillRange', 'DirectRange'), ('start', 'len')), stop_calls=isdraw)
+        for (i, st) in aggs:
+            rv = st['rv']
+            before = rv['adt'].endswith('SequenceBeforeResult')
+            op = rv['ops'][1 if before else 0]
+            n += 1
+            fn = fb.root_of(b.name).split('::')[-1]
+            ck.require(pos.op_tainted(op) and not neg.op_tainted(op), R, '%s:%s::NextId<-draw' % (fn, rv['adt'].split('::')[-1]), b.where(i),
+                       '%s answers an id that %s: ids buffered for the key are overtaken, the node hands out a smaller id after a larger one'
+                       % (fn, 'is taken from a reserved range directly' if neg.op_tainted(op) else 'does not come from a draw on the key\'s buffer (do_next_id)'),
+                       'from do_next_id')
+    ck.floor(R, 'NextId answers built in SequenceManager', n, 3)
 
 
 def r19g(ck, fb):
